@@ -29,6 +29,15 @@ var Scans = []*Scan{
 		},
 	},
 	{
+		Name:  "no-shared-state",
+		Props: []string{"C13"},
+		Text: "packages lz and suffix keep no shared mutable state: every package-level variable is assigned only in its declaration, its address is never taken, " +
+			"there is no go statement and no use of sync, sync/atomic or unsafe (what a method computes depends only on its receiver and arguments, so equal states give equal blocks and instances cannot influence each other)",
+		Run: func(w *World) []string {
+			return append(scanNoSharedState(w, "lz"), scanNoSharedState(w, "suffix")...)
+		},
+	},
+	{
 		Name:  "bitset-encapsulation",
 		Props: []string{"C12", "C16"},
 		Text: "the fields of bitset (a, off) are read and written only inside methods of bitset, no bitset value is copied or compared as a whole outside them, " +
@@ -224,4 +233,77 @@ func scanEncapsulation(w *World, pkg, typ string) []string {
 		}
 	}
 	return out
+}
+
+// scanNoSharedState: no package-level variable of pkg is written after its declaration or has its address taken;
+// no goroutines, no sync / atomic / unsafe.
+func scanNoSharedState(w *World, pkg string) []string {
+	pk := w.Pkgs[pkg]
+	if pk == nil {
+		return []string{"package " + pkg + " not loaded"}
+	}
+	var out []string
+	isGlobal := func(e ast.Expr) (*types.Var, bool) {
+		for {
+			switch x := ast.Unparen(e).(type) {
+			case *ast.SelectorExpr:
+				if _, isPkg := pk.TypesInfo.Uses[identOf(x.X)].(*types.PkgName); isPkg {
+					e = x.Sel
+					continue
+				}
+				e = x.X
+				continue
+			case *ast.IndexExpr:
+				e = x.X
+				continue
+			case *ast.StarExpr:
+				e = x.X
+				continue
+			case *ast.Ident:
+				if v, ok := pk.TypesInfo.Uses[x].(*types.Var); ok && v.Pkg() != nil && v.Parent() == v.Pkg().Scope() {
+					return v, true
+				}
+				return nil, false
+			default:
+				return nil, false
+			}
+		}
+	}
+	for _, f := range nonTestFiles(w, pkg) {
+		for _, imp := range f.Imports {
+			switch strings.Trim(imp.Path.Value, "\"") {
+			case "sync", "sync/atomic", "unsafe":
+				out = append(out, fmt.Sprintf("%s: imports %s", w.Fset.Position(imp.Pos()), imp.Path.Value))
+			}
+		}
+		ast.Inspect(f, func(n ast.Node) bool {
+			switch n := n.(type) {
+			case *ast.GoStmt:
+				out = append(out, fmt.Sprintf("%s: go statement", w.Fset.Position(n.Pos())))
+			case *ast.AssignStmt:
+				for _, l := range n.Lhs {
+					if v, ok := isGlobal(l); ok {
+						out = append(out, fmt.Sprintf("%s: package-level variable %s is assigned", w.Fset.Position(n.Pos()), v.Name()))
+					}
+				}
+			case *ast.IncDecStmt:
+				if v, ok := isGlobal(n.X); ok {
+					out = append(out, fmt.Sprintf("%s: package-level variable %s is modified", w.Fset.Position(n.Pos()), v.Name()))
+				}
+			case *ast.UnaryExpr:
+				if n.Op == token.AND {
+					if v, ok := isGlobal(n.X); ok {
+						out = append(out, fmt.Sprintf("%s: the address of package-level variable %s is taken", w.Fset.Position(n.Pos()), v.Name()))
+					}
+				}
+			}
+			return true
+		})
+	}
+	return out
+}
+
+func identOf(e ast.Expr) *ast.Ident {
+	id, _ := ast.Unparen(e).(*ast.Ident)
+	return id
 }
